@@ -92,4 +92,25 @@ def nonIncreasing : List Rat → Bool
   | [_] => true
   | a :: b :: t => decide (b ≤ a) && nonIncreasing (b :: t)
 
+/-- `_select_number_eigencomponents` with the source-level choices left open: strictness of the
+comparison `var_explained ? percentage` (`strict = true` for `<`), the added constant, and the guard
+`percentage ? bound` of the float branch.  `harness/c01.py:translate()` extracts these from
+`FDApy/misc/utils.py` with `ast` into `Generated/SelectNpc.lean`; `C01.source_selectNpc` proves that the
+extracted instance is the model's `selectNpc`. -/
+def selectNpcParam (strict : Bool) (offset : Nat) (boundStrict : Bool) (bound : Rat)
+    (vals : List Rat) : Sel → Except String Int
+  | .int k => .ok k
+  | .frac p =>
+    if (if boundStrict then decide (p < bound) else decide (p ≤ bound)) then
+      let total := vals.sum
+      .ok ((((cumsum vals).filter fun c =>
+        decide (total ≠ 0) && (if strict then decide (c / total < p) else decide (c / total ≤ p))).length : Nat)
+          + offset : Int)
+    else .error "ValueError"
+  | .all => .ok (vals.length : Int)
+  | .bad => .error "ValueError"
+
+/-- Solver pairs of `G − σ²I` from those of `G`: values shifted, vectors unchanged. -/
+def shiftPairs (σ2 : Rat) (l : List Pair) : List Pair := l.map fun p => (p.1 - σ2, p.2)
+
 end FDA.Eigen
